@@ -20,3 +20,25 @@ Theorem C05_reachable_well_formed : forall khash remap keep c ops,
   let '(s', _) := run khash remap keep (with_capacity c) ops in WF khash s' /\ sized s'.
 Proof. exact reachable_wf_sized_final. Qed.
 Print Assumptions C05_reachable_well_formed.
+
+(* ---- list bins under every schedule, at EVERY instant (Model/BinProto.v) ----
+   Not only at quiescence: in every reachable configuration - operations in flight, bin locks
+   held, unlinks half done - every bin's chain holds pairwise distinct keys, each in the bin its
+   hash selects, and a lookup of k finds exactly what the chain of k's bin holds for k; so
+   iterating the bins and looking keys up agree at every instant.  (Model tied to the code by the
+   step conformance of C01.) *)
+From Flurry Require Import Model.BinProto Model.BinConf Proofs.BinProtoWF.
+Theorem C05_bins_well_formed_at_every_instant : forall khash nbins progs sched i,
+  (0 < nbins)%nat -> (i < nbins)%nat ->
+  let c := run khash nbins (init nbins progs) sched in
+  NoDup (map fst (chain_of c i)) /\
+  Forall (fun kv => bini khash nbins (fst kv) = i) (chain_of c i).
+Proof. exact bins_well_formed_at_every_instant. Qed.
+Print Assumptions C05_bins_well_formed_at_every_instant.
+
+Theorem C05_lookup_agrees_with_chain_at_every_instant : forall khash nbins progs sched k,
+  (0 < nbins)%nat ->
+  let c := run khash nbins (init nbins progs) sched in
+  lookup khash nbins c k = assoc_kv k (chain_of c (bini khash nbins k)).
+Proof. exact lookup_agrees_with_chain_at_every_instant. Qed.
+Print Assumptions C05_lookup_agrees_with_chain_at_every_instant.
